@@ -73,6 +73,12 @@ func (in *inst) auxKey() string {
 
 func (x *Explorer) fresh() *inst {
 	if len(x.W.Keys) == 0 || x.keysFor != x.C {
+		if len(x.W.Keys) > 0 && x.W.DB != nil {
+			// another configuration used this world before: what its last history left in the shared store goes first
+			if err := x.W.DB.VerifDeleteKeys(x.W.Keys); err != nil {
+				ev.Broken("wipe: %v", err)
+			}
+		}
 		x.W.Keys = nil
 		seen := map[string]bool{}
 		for _, m := range x.C.Msgs {
